@@ -302,8 +302,13 @@ def progressBar(iteration, total, prefix = '', suffix = '', decimals = 1, length
         est_complete = (current-ETA)/(iteration+1)*(total-iteration)+current
         est_complete_str = datetime.datetime.fromtimestamp(est_complete).strftime('ETA: %Y-%m-%d %I:%M:%S%p')
         suffix = est_complete_str
-    percent = ("{0:." + str(decimals) + "f}").format(100*(iteration / float(total)))
-    filledLength = int(length * iteration // total)
+    if total == 0:
+        #A single-step job (total is the last index): already complete
+        percent = ("{0:." + str(decimals) + "f}").format(100.0)
+        filledLength = length
+    else:
+        percent = ("{0:." + str(decimals) + "f}").format(100*(iteration / float(total)))
+        filledLength = int(length * iteration // total)
     bar = fill * filledLength + '-' * (length - filledLength)
     print('\r%s |%s| %s%% %s' % (prefix, bar, percent, suffix), end = '\r')
     if iteration == total:
